@@ -1,7 +1,8 @@
 // Correspondence harness for C02: drives the real HashMap / HashSet / PoolMap on the op file.
 // The containers are driven through their public API only; the access override is used to
 // READ the bucket array, chains, back-pointers, free list and blocks for the L-int dump.
-//   case <n> <hm|hs|pm> <i|l|s> <cap0> <cap1> …     one container variable per capacity
+//   case <n> <hm|hs|pm> <i|l|u|p|s> <cap0> <cap1> …     one container variable per capacity
+// Built with -DC02_CONST_ALL / -DC02_PTR_REMOVEBACK when the corresponding calls are well-formed (checks/C02.py probes).
 #include "vh.hpp"
 #define private public
 #define protected public
